@@ -40,8 +40,10 @@ class ContinueSignal(Exception):
 
 
 class Closure:
-    def __init__(self, node, frame, module, qualname, cls=None):
+    def __init__(self, node, frame, module, qualname, cls=None, defaults=None):
         self.node, self.frame, self.module, self.qualname, self.cls = node, frame, module, qualname, cls
+        # default values are evaluated ONCE, when the def / lambda is executed (Python semantics)
+        self.defaults = defaults
 
     def __repr__(self):
         return '<Closure %s>' % self.qualname
@@ -384,7 +386,7 @@ class Interp:
             model = self.registry.models.get(fn.qualname) if self.registry else None
             if model is not None and fn.qualname not in self.registry.inline_now:
                 return model(self, list(args), kwargs)
-            return self.run_function(fn.node, fn.module, fn.frame, fn.qualname, fn.cls, args, kwargs)
+            return self.run_function(fn.node, fn.module, fn.frame, fn.qualname, fn.cls, args, kwargs, defaults=fn.defaults)
         if isinstance(fn, ClassRef):
             return self.instantiate(fn, args, kwargs)
         if isinstance(fn, ModuleRef):
@@ -463,7 +465,7 @@ class Interp:
             self.call(init, [obj] + list(args), kwargs)
         return obj
 
-    def bind_args(self, node, args, kwargs, frame, module):
+    def bind_args(self, node, args, kwargs, frame, module, defaults_v=None):
         a = node.args
         params = [p.arg for p in a.posonlyargs + a.args]
         defaults = a.defaults
@@ -494,17 +496,17 @@ class Interp:
                 di = i - (len(params) - nd)
                 if di < 0:
                     raise PyRaise(ExcVal('TypeError', ('missing argument %s' % p,)))
-                bound[p] = self.eval(defaults[di], dframe)
-        for p, d in zip(kwonly, a.kw_defaults):
+                bound[p] = defaults_v[0][di] if defaults_v is not None else self.eval(defaults[di], dframe)
+        for ki, (p, d) in enumerate(zip(kwonly, a.kw_defaults)):
             if p not in bound:
                 if d is None:
                     raise PyRaise(ExcVal('TypeError', ('missing kw argument %s' % p,)))
-                bound[p] = self.eval(d, dframe)
+                bound[p] = defaults_v[1][ki] if defaults_v is not None else self.eval(d, dframe)
         return bound
 
-    def run_function(self, node, module, parent_frame, qualname, cls, args, kwargs):
+    def run_function(self, node, module, parent_frame, qualname, cls, args, kwargs, defaults=None):
         frame = Frame(module, parent=parent_frame, func=node, cls=cls, qualname=qualname)
-        frame.vars.update(self.bind_args(node, args, kwargs, parent_frame, module))
+        frame.vars.update(self.bind_args(node, args, kwargs, parent_frame, module, defaults))
         if isinstance(node, ast.Lambda):
             return self.eval(node.body, frame)
         try:
@@ -546,8 +548,12 @@ class Interp:
         raise ContinueSignal()
 
     def st_FunctionDef(self, st, frame):
-        frame.vars[st.name] = Closure(st, frame, frame.module,
-                                      frame.qualname + '.<locals>.' + st.name, frame.cls)
+        frame.vars[st.name] = Closure(st, frame, frame.module, frame.qualname + '.<locals>.' + st.name, frame.cls,
+                                      defaults=self.eval_defaults(st, frame))
+
+    def eval_defaults(self, node, frame):
+        a = node.args
+        return ([self.eval(d, frame) for d in a.defaults], [None if d is None else self.eval(d, frame) for d in a.kw_defaults])
 
     def st_Import(self, st, frame):
         for a in st.names:
@@ -873,7 +879,7 @@ class Interp:
         return '<fstring>'
 
     def ex_Lambda(self, node, frame):
-        return Closure(node, frame, frame.module, frame.qualname + '.<lambda>', frame.cls)
+        return Closure(node, frame, frame.module, frame.qualname + '.<lambda>', frame.cls, defaults=self.eval_defaults(node, frame))
 
     def ex_IfExp(self, node, frame):
         if self.branch(self.eval(node.test, frame), 'ifexp@%d' % node.lineno):
